@@ -224,7 +224,7 @@ def _compute_id_spec(sx, args, kwargs, st, node):
 
 JSTR, JINT, JLIST = 4, 2, 5
 LOWHEX = "(jkind(%s) == 4 and len(jstr(%s)) == %d and all(c in '0123456789abcdef' for c in jstr(%s)))"
-TAG_OK = ("jkind(jitem(event.tags, i)) == 5 and jlen(jitem(event.tags, i)) > 0 and "
+TAG_OK = ("jkind(jitem(event.tags, i)) == 5 and jlen(jitem(event.tags, i)) > 0 and jkind(jitem(jitem(event.tags, i), 0)) == 4 and "
           "all_range(0, jlen(jitem(event.tags, i)), lambda k: jkind(jitem(jitem(event.tags, i), k)) == 4 or jkind(jitem(jitem(event.tags, i), k)) == 2)")
 CANON = ("jkind(event.created_at) == 2 and jkind(event.kind) == 2 and jkind(event.content) == 4 and "
          + LOWHEX % ("event.pubkey", "event.pubkey", 64, "event.pubkey") + " and "
